@@ -3,5 +3,5 @@
 cd "$(dirname "$0")" || exit 2
 export GOFLAGS=-mod=mod GOPROXY=off GOSUMDB=off GOTOOLCHAIN=local
 mkdir -p build evidence replays
-(cd translator && go build -o ../build/translator .) || exit 1
+(cd translator && go build -o ../build/translator . && go build -o ../build/instrument ./instrument) || exit 1
 exec python3 harness/check.py ALL --prepare
